@@ -263,6 +263,7 @@ func init() {
 	add("C09", ruleR10_7)
 	add("C13", ruleR13_7)
 	add("C16", ruleR13_7)
+	add("C03", ruleR03_15)
 	add("C03", ruleR03_14)
 	add("C14", ruleR03_14)
 	add("C03", ruleR03_12)
